@@ -119,7 +119,7 @@ func (c OptionalColumn) Read() string {
 }
 
 func (c OptionalColumn) ReadOr(s string) string {
-	if c.i < 0 {
+	if c.i < 0 || c.f.currentRow.cells[c.i] == "" {
 		return s
 	}
 	return c.f.currentRow.cells[c.i]
